@@ -56,6 +56,7 @@ longer than `req`" -/
 theorem isOpen_krank {F : List Rng} (hF : RngWF F) {a req : Nat} (ha : a < TOP) (hreq : req < 256)
     (hA : ∀ R ∈ F, R.lo < a → a < R.hi → R.len ≤ req) (X : Rng) :
     IsOpen F (krank a req) X ↔ X ∈ F ∧ X.lo ≤ a ∧ a < X.hi ∧ X.len ≤ req := by
+  have kX := ekey_lt X.len
   unfold IsOpen krank srank erank
   constructor
   · rintro ⟨hXF, hs, he⟩
@@ -111,22 +112,15 @@ def RngMono (F : List Rng) : Prop := ∀ R ∈ F, ∀ R' ∈ F, R.sub R' → R'.
 family: the implicit IPv4 null range — mask length 0 — inside a declared IPv6 block) -/
 def IsExc (F : List Rng) (E : Rng) : Prop := ∃ R' ∈ F, E.sub R' ∧ E.len < R'.len
 
-/-- monotonicity up to harmless exceptions: an exception has mask length 0, no other range that
-contains it ends where it ends, the ranges that start where it ends have positive mask length, and
-exceptions are not nested -/
+/-- monotonicity up to harmless exceptions: an exception has mask length 0 -/
 structure RngMonoW (F : List Rng) : Prop where
   len0 : ∀ E ∈ F, IsExc F E → E.len = 0
-  top : ∀ E ∈ F, IsExc F E → ∀ X ∈ F, E.sub X → X.hi = E.hi → X = E
-  next : ∀ E ∈ F, IsExc F E → ∀ X ∈ F, X.lo = E.hi → 0 < X.len
-  uniq : ∀ E ∈ F, IsExc F E → ∀ E' ∈ F, IsExc F E' → E.sub E' → E = E'
 
 theorem RngMono.toW {F : List Rng} (h : RngMono F) : RngMonoW F := by
-  have no : ∀ E ∈ F, ¬ IsExc F E := by
-    rintro E hE ⟨R', hR', hsub, hlt⟩
-    have := h E hE R' hR' hsub
-    omega
-  exact ⟨fun E hE he => absurd he (no E hE), fun E hE he => absurd he (no E hE),
-    fun E hE he => absurd he (no E hE), fun E hE he => absurd he (no E hE)⟩
+  refine ⟨fun E hE he => ?_⟩
+  obtain ⟨R', hR', hsub, hlt⟩ := he
+  have := h E hE R' hR' hsub
+  omega
 
 theorem mono_or {F : List Rng} {R R' : Rng} (hR' : R' ∈ F) (hsub : R.sub R') :
     R'.len ≤ R.len ∨ IsExc F R := by
@@ -177,6 +171,7 @@ theorem OutOK.len_le {F : List Rng} {M : List GEv} (hF : RngWF F) (hM : MarkWF F
 theorem outPt_ip_le {g : GEv} (hg : g.r.len ≤ 128) :
     g.pt.ip * 1024 ≤ grank g ∧ grank g < g.pt.ip * 1024 + 1024 := by
   obtain ⟨R, k⟩ := g
+  have kR := ekey_lt R.len
   cases k <;> simp only [grank, rank, GEv.pt] <;> simp only at hg <;> omega
 
 /-- comparing ranks compares addresses (the in-address part of a rank is below 1024); stated
@@ -196,6 +191,15 @@ theorem ip_le_of_rank {a b r r' : Nat} (h1 : a * 1024 ≤ r) (h : r ≤ r') (h2 
     exact Nat.lt_of_le_of_lt (Nat.le_trans h1 h) h2
   exact Nat.le_of_lt_succ (Nat.lt_of_mul_lt_mul_right this)
 
+theorem rank_eq_split {a b x y : Nat} (h : a * 1024 + x = b * 1024 + y) (hx : x < 1024)
+    (hy : y < 1024) : a = b ∧ x = y := by
+  have h1 : a ≤ b := ip_le_of_rank (Nat.le_add_right _ x) (Nat.le_of_eq h) (Nat.add_lt_add_left hy _)
+  have h2 : b ≤ a :=
+    ip_le_of_rank (Nat.le_add_right _ y) (Nat.le_of_eq h.symm) (Nat.add_lt_add_left hx _)
+  have e := Nat.le_antisymm h1 h2
+  rw [e] at h
+  exact ⟨e, Nat.add_left_cancel h⟩
+
 theorem rank_start_lt {a b l y : Nat} (h : a < b) (hl : l ≤ 128) :
     a * 1024 + (512 + l) < b * 1024 + y := rank_lt_of_addr h (by omega)
 
@@ -213,14 +217,44 @@ every cut at address `ip` that precedes that event -/
 theorem isOpen_of_ranks {F : List Rng} {X : Rng} (hXF : X ∈ F) {t : Nat} (hs : srank X ≤ t)
     (he : X.hi = TOP ∨ t < erank X) : IsOpen F t X := ⟨hXF, hs, he⟩
 
-/-- the points emitted at one address form a valley: descending while stops pop outwards, then
-ascending with the starts -/
+/-- at one address the emitted end points precede the emitted start points -/
+theorem stopsFirst_out {F : List Rng} (hF : RngWF F) {M : List GEv} (hM : MarkWF F M)
+    {GO : List (GEv × Rng)}
+    (hsorted : GO.Pairwise fun x y => grank x.1 < grank y.1)
+    (hmem : ∀ gh ∈ GO, OutOK F M gh) :
+    StopsFirst (GO.map outPt) := by
+  unfold StopsFirst
+  rw [List.pairwise_map]
+  refine List.Pairwise.imp_of_mem ?_ hsorted
+  intro x y hx hy hlt hip hk
+  obtain ⟨gx, Hx⟩ := x
+  obtain ⟨gy, Hy⟩ := y
+  have hlx := (hmem _ hx).len_le hF hM
+  simp only [outPt] at hip hk ⊢
+  simp only at hlt hlx
+  obtain ⟨Rx, kx⟩ := gx
+  obtain ⟨Ry, ky⟩ := gy
+  simp only at hk; subst hk
+  cases kx with
+  | stop => rfl
+  | start =>
+    exfalso
+    have ky := ekey_lt Ry.len
+    have e1 : grank ⟨Rx, Kind.start⟩ = Rx.lo * 1024 + (512 + Rx.len) := rfl
+    have e2 : grank ⟨Ry, Kind.stop⟩ = Ry.hi * 1024 + ekey Ry.len := rfl
+    have : Rx.lo = Ry.hi := hip
+    rw [e1, e2, this] at hlt
+    omega
+
+/-- among the start points emitted at one address the mask lengths do not fall back: the start
+points of `F` there are strictly ascending, and a marker (which comes first) emits a range that
+contains them -/
 theorem valley_out {F : List Rng} (hF : RngWF F) (hW : RngMonoW F) {M : List GEv} (hM : MarkWF F M)
     {GO : List (GEv × Rng)}
     (hsorted : GO.Pairwise fun x y => grank x.1 < grank y.1)
     (hmem : ∀ gh ∈ GO, OutOK F M gh) :
     Valley (GO.map outPt) := by
-  intro a b c hsub hab hbc hrise
+  intro a b c hsub hab hbc hbstart hcstart hrise
   obtain ⟨l', hl', hmap⟩ := List.sublist_map_iff.1 hsub
   obtain ⟨ga, gb, gc, rfl⟩ : ∃ ga gb gc, l' = [ga, gb, gc] := by
     match l', hmap with
@@ -228,132 +262,31 @@ theorem valley_out {F : List Rng} (hF : RngWF F) (hW : RngMonoW F) {M : List GEv
   simp only [List.map_cons, List.map_nil, List.cons.injEq, and_true] at hmap
   obtain ⟨rfl, rfl, rfl⟩ := hmap
   have hpw := List.Pairwise.sublist hl' hsorted
-  have hab' := (List.pairwise_cons.1 hpw).1 gb (by simp)
-  have hac' := (List.pairwise_cons.1 hpw).1 gc (by simp)
   have hbc' := (List.pairwise_cons.1 (List.pairwise_cons.1 hpw).2).1 gc (by simp)
   clear hpw
-  have hma := hmem ga (hl'.subset (by simp))
   have hmb := hmem gb (hl'.subset (by simp))
   have hmc := hmem gc (hl'.subset (by simp))
   obtain ⟨ga1, Ha⟩ := ga
   obtain ⟨gb1, Hb⟩ := gb
   obtain ⟨gc1, Hc⟩ := gc
-  simp only [outPt] at hab hbc hrise ⊢
-  simp only at hab' hbc' hac'
+  simp only [outPt] at hab hbc hrise hbstart hcstart ⊢
+  simp only at hbc'
   show Ha.len < Hc.len
   have hrise' : Ha.len < Hb.len := hrise
-  have hia := outPt_ip_le (hma.len_le hF hM)
-  simp only at hia
-  have hdA : IsHead F (grank ga1) Ha := hma.1
   have hdB : IsHead F (grank gb1) Hb := hmb.1
   have hdC : IsHead F (grank gc1) Hc := hmc.1
-  have hHaF : Ha ∈ F := hdA.1.1
   have hHbF : Hb ∈ F := hdB.1.1
   have hHcF : Hc ∈ F := hdC.1.1
-  obtain ⟨ba1, ba2, ba3⟩ := hF.bounds Ha hHaF
   obtain ⟨bb1, bb2, bb3⟩ := hF.bounds Hb hHbF
   obtain ⟨bc1, bc2, bc3⟩ := hF.bounds Hc hHcF
   rcases hmb.cases hM with ⟨Rb, rfl, hRbF, hRbtop⟩ | ⟨rfl, _⟩ | ⟨Ub, rfl, hbM, hUblo, hUblen⟩
-  · -- b is a stop event
-    obtain ⟨rb1, rb2, rb3⟩ := hF.bounds Rb hRbF
-    have eb : grank ⟨Rb, Kind.stop⟩ = Rb.hi * 1024 + (255 - Rb.len) := rfl
-    have hipa : ga1.pt.ip = Rb.hi := hab
-    have hipc : Rb.hi = gc1.pt.ip := hbc
-    rw [hipa] at hia
-    rw [eb] at hab' hbc'
-    -- `Hb` and `Rb` are open at a's cut, so `Ha` lies inside them
-    have hopenHb : IsOpen F (grank ga1) Hb := by
-      obtain ⟨h1, h2, h3⟩ := hdB.1
-      rw [eb] at h2 h3
-      refine ⟨h1, ?_, ?_⟩
-      · unfold srank at h2 ⊢; omega
-      · rcases h3 with h3 | h3
-        · exact Or.inl h3
-        · exact Or.inr (by omega)
-    have hsubHb := hdA.2 Hb hopenHb
-    rcases mono_or hHbF (show Ha.sub Hb from ⟨hsubHb.1, hsubHb.2⟩) with hle | hexc
-    · omega
-    -- `Ha` is an exception: `b` is its own stop event
-    have hopenAt : ∀ X ∈ F, X.hi = Rb.hi → grank ga1 < erank X → IsOpen F (grank ga1) X := by
-      intro X hXF hXhi hlt
-      obtain ⟨x1, x2, x3⟩ := hF.bounds X hXF
-      refine ⟨hXF, ?_, Or.inr hlt⟩
-      unfold srank; omega
-    have hHahi : Ha.hi = Rb.hi := by
-      have h1 := (hdA.2 Rb (hopenAt Rb hRbF rfl (by unfold erank; omega))).2
-      have h2 : Ha.hi = TOP ∨ grank ga1 < erank Ha := hdA.1.2.2
-      unfold erank at h2
-      rcases h2 with h2 | h2 <;> omega
-    have hRbHa : Rb = Ha :=
-      hW.top Ha hHaF hexc Rb hRbF (hdA.2 Rb (hopenAt Rb hRbF rfl (by unfold erank; omega)))
-        hHahi.symm
-    subst hRbHa
-    have hlen0 := hW.len0 Rb hHaF hexc
-    have hHbhi : Rb.hi < Hb.hi := by
-      have : Hb.hi ≠ Rb.hi := fun e => by
-        have := hW.top Rb hHaF hexc Hb hHbF ⟨hsubHb.1, hsubHb.2⟩ e
-        rw [this] at hrise'; omega
-      have := hsubHb.2
-      omega
-    rcases hmc.cases hM with ⟨Rc, rfl, hRcF, hRctop⟩ | ⟨rfl, _⟩ | ⟨Uc, rfl, hcM, hUclo, hUclen⟩
-    · -- c a stop at the same address: it would be the stop of `Ha` again
-      exfalso
-      obtain ⟨rc1, rc2, rc3⟩ := hF.bounds Rc hRcF
-      have ec : grank ⟨Rc, Kind.stop⟩ = Rc.hi * 1024 + (255 - Rc.len) := rfl
-      have hipc' : Rb.hi = Rc.hi := hipc
-      rw [ec] at hbc' hac'
-      have hopenRc := hopenAt Rc hRcF hipc'.symm (by unfold erank; omega)
-      have := hW.top Rb hHaF hexc Rc hRcF (hdA.2 Rc hopenRc) hipc'.symm
-      rw [this] at hbc'; omega
-    · -- c a start where the exception ends
-      have hipc' : Rb.hi = Hc.lo := hipc
-      have := hW.next Rb hHaF hexc Hc hHcF hipc'.symm
-      omega
-    · -- c a marker: `Hb` is still open there
-      have ec := hM.grank hcM
-      have hipc' : Rb.hi = Uc.lo := hipc
-      rw [ec] at hbc' hac'
-      have hopenc : IsOpen F (grank ⟨Uc, Kind.start⟩) Hb := by
-        obtain ⟨h1, h2, h3⟩ := hdB.1
-        rw [eb] at h2
-        rw [ec]
-        refine ⟨h1, Nat.le_of_lt (Nat.lt_of_le_of_lt h2 hbc'), ?_⟩
-        by_cases hTop : Hb.hi = TOP
-        · exact Or.inl hTop
-        · right; unfold erank; rw [← hUclo, ← hipc']
-          exact rank_lt_of_addr hHbhi (Nat.lt_of_lt_of_le (by decide : 512 < 1024) (Nat.le_add_right _ _))
-      have hsubc := hdC.2 Hb hopenc
-      rcases mono_or hHbF (show Hc.sub Hb from ⟨hsubc.1, hsubc.2⟩) with hle | hexc'
-      · omega
-      · exfalso
-        -- `Hc` is open at a's cut as well, so the exception `Ha` lies inside the exception `Hc`
-        obtain ⟨_, h2, h3⟩ := hdC.1
-        rw [ec] at h2 h3
-        have hclo : Hc.lo < Rb.hi := by
-          refine Nat.lt_of_le_of_ne ?_ fun e => ?_
-          · unfold srank at h2; rw [← hUclo, ← hipc'] at h2; omega
-          · have hl : Hc.len = 0 := by
-              unfold srank at h2; rw [← hUclo, ← hipc', e] at h2; omega
-            exact hM.alone _ hcM Hc hHcF ⟨by rw [e, hipc', hUclo], hl⟩
-        have hopena : IsOpen F (grank ga1) Hc := by
-          refine ⟨hHcF, by unfold srank; omega, ?_⟩
-          rcases h3 with h3 | h3
-          · exact Or.inl h3
-          · exact Or.inr (by omega)
-        have := hW.uniq Rb hHaF hexc Hc hHcF hexc' (hdA.2 Hc hopena)
-        rw [← this] at h3
-        unfold erank at h3
-        rw [← hUclo, ← hipc'] at h3
-        rcases h3 with h3 | h3 <;> omega
+  · cases hbstart
   · -- b is the start event of `Hb`
     have eb : grank ⟨Hb, Kind.start⟩ = Hb.lo * 1024 + (512 + Hb.len) := rfl
     rw [eb] at hbc'
     have hipc : Hb.lo = gc1.pt.ip := hbc
     rcases hmc.cases hM with ⟨Rc, rfl, hRcF, hRctop⟩ | ⟨rfl, _⟩ | ⟨Uc, rfl, hcM, hUclo, hUclen⟩
-    · exfalso
-      have ec : grank ⟨Rc, Kind.stop⟩ = Rc.hi * 1024 + (255 - Rc.len) := rfl
-      have : Hb.lo = Rc.hi := hipc
-      rw [ec] at hbc'; omega
+    · cases hcstart
     · have ec : grank ⟨Hc, Kind.start⟩ = Hc.lo * 1024 + (512 + Hc.len) := rfl
       have : Hb.lo = Hc.lo := hipc
       rw [ec] at hbc'; omega
@@ -366,10 +299,7 @@ theorem valley_out {F : List Rng} (hF : RngWF F) (hW : RngMonoW F) {M : List GEv
     rw [eb] at hbc'
     have hipc : Ub.lo = gc1.pt.ip := hbc
     rcases hmc.cases hM with ⟨Rc, rfl, hRcF, hRctop⟩ | ⟨rfl, _⟩ | ⟨Uc, rfl, hcM, hUclo, hUclen⟩
-    · exfalso
-      have ec : grank ⟨Rc, Kind.stop⟩ = Rc.hi * 1024 + (255 - Rc.len) := rfl
-      have : Ub.lo = Rc.hi := hipc
-      rw [ec, ← hUblo] at hbc'; omega
+    · cases hcstart
     · -- c a start at `afterIPv4`: it lies inside the range that continues there
       have ec : grank ⟨Hc, Kind.start⟩ = Hc.lo * 1024 + (512 + Hc.len) := rfl
       have hlo : Ub.lo = Hc.lo := hipc
@@ -383,7 +313,8 @@ theorem valley_out {F : List Rng} (hF : RngWF F) (hW : RngMonoW F) {M : List GEv
         · right
           unfold erank at h3 ⊢
           rw [← hUblo, hlo] at h3
-          have h4 : Hc.lo < Hb.hi := addr_lt_of_rank' h3 (Nat.le_trans (Nat.sub_le _ _) (by decide))
+          have h4 : Hc.lo < Hb.hi :=
+            addr_lt_of_rank' h3 (Nat.le_of_lt (ekey_lt _))
           exact rank_start_lt h4 bc3
       have hsubc := hdC.2 Hb hopenc
       rcases mono_or hHbF (show Hc.sub Hb from ⟨hsubc.1, hsubc.2⟩) with hle | hexc'
@@ -393,7 +324,6 @@ theorem valley_out {F : List Rng} (hF : RngWF F) (hW : RngMonoW F) {M : List GEv
     · exfalso
       have ec := hM.grank hcM
       rw [ec] at hbc'; omega
-
 
 /-- the sweep output, annotated: for every event the range on top of the stack afterwards -/
 theorem sweep_out {F : List Rng} (hF : RngWF F) (hN : NoResume F) {M : List GEv} (hM : MarkWF F M)
@@ -449,7 +379,7 @@ theorem table_sorted {F : List Rng} (hF : RngWF F) (hW : RngMonoW F) {M : List G
     show x.1.pt.ip ≤ y.1.pt.ip
     exact ip_le_of_rank h1.1 (Nat.le_of_lt hlt) h2.2
   have hval := valley_out hF hW hM hsorted hmem
-  have hks := squash_keySorted _ hip hval
+  have hks := squash_keySorted _ hip hval (stopsFirst_out hF hM hsorted hmem)
   have hfacts : ∀ p ∈ squash [] (GO.map outPt), (p.loc = none → p.maskLen = 0) ∧ p.maskLen < 256 := by
     intro p hp
     have hp' : p ∈ GO.map outPt := (squash_sublist _).subset hp
@@ -465,27 +395,29 @@ theorem table_sorted {F : List Rng} (hF : RngWF F) (hW : RngMonoW F) {M : List G
 /-- an event after the cut of the lookup key is at a later address, or a start at `a` longer than `req` -/
 theorem after_krank {F : List Rng} (hF : RngWF F) {M : List GEv} (hM : MarkWF F M) {gh : GEv × Rng}
     {a req : Nat} (hreq : req < 256) (h : OutOK F M gh) (hk : krank a req < grank gh.1) :
-    a < (outPt gh).ip ∨ ((outPt gh).ip = a ∧ req < (outPt gh).maskLen) := by
+    a < (outPt gh).ip ∨
+      ((outPt gh).ip = a ∧ req < (outPt gh).maskLen ∧ (outPt gh).kind = .start) := by
   obtain ⟨g, H⟩ := gh
   rcases h.cases hM with ⟨R, rfl, hRF, hRtop⟩ | ⟨rfl, hRF⟩ | ⟨U, rfl, hm, hlo, hlen⟩
   · obtain ⟨b1, b2, b3⟩ := hF.bounds R hRF
-    have e : grank ⟨R, Kind.stop⟩ = R.hi * 1024 + (255 - R.len) := rfl
+    have e : grank ⟨R, Kind.stop⟩ = R.hi * 1024 + ekey R.len := rfl
     rw [e] at hk
     unfold krank at hk
     left
     show a < R.hi
-    exact addr_lt_of_rank' hk (Nat.le_trans (Nat.sub_le _ _) (Nat.le_trans (by decide) (Nat.le_add_right _ _)))
+    exact addr_lt_of_rank' hk
+      (Nat.le_trans (Nat.le_of_lt (ekey_lt _)) (Nat.le_add_right _ _))
   · obtain ⟨b1, b2, b3⟩ := hF.bounds H hRF
     have e : grank ⟨H, Kind.start⟩ = H.lo * 1024 + (512 + H.len) := rfl
     rw [e] at hk
     unfold krank at hk
-    show a < H.lo ∨ (H.lo = a ∧ req < H.len)
+    show a < H.lo ∨ (H.lo = a ∧ req < H.len ∧ Kind.start = Kind.start)
     have hle : a ≤ H.lo := addr_lt_of_rank hk (by omega)
     rcases Nat.lt_or_eq_of_le hle with h | h
     · exact Or.inl h
     · right
       rw [h] at hk
-      exact ⟨h.symm, by omega⟩
+      exact ⟨h.symm, by omega, rfl⟩
   · have e := hM.grank hm
     rw [e] at hk
     unfold krank at hk
@@ -564,8 +496,7 @@ theorem sweep_lookup {F : List Rng} (hF : RngWF F) (hW : RngMonoW F) {M : List G
     exact ip_le_of_rank this.1 hxk (Nat.add_lt_add_left h512 _)
   have hpml : (outPt x).maskLen ≤ req := hInner.2.2.2.1
   -- it is not replaced by its successor
-  have hnorep : ∀ q, (post.map outPt).head? = some q →
-      ¬ ((outPt x).ip = q.ip ∧ (outPt x).maskLen ≥ q.maskLen) := by
+  have hnorep : ∀ q, (post.map outPt).head? = some q → ¬ sqRep (outPt x) q := by
     intro q hq
     cases post with
     | nil => cases hq
@@ -574,7 +505,12 @@ theorem sweep_lookup {F : List Rng} (hF : RngWF F) (hW : RngMonoW F) {M : List G
       subst hq
       have hy : y ∈ GO := by rw [hGO]; simp
       have := after_krank hF hM hreq (hmem y hy) (hpost y List.mem_cons_self)
-      omega
+      rintro ⟨h1, h2⟩
+      rcases this with h | ⟨h3, h4, h5⟩
+      · omega
+      · rcases h2 with h2 | h2
+        · omega
+        · rw [h5] at h2; cases h2
   have hO : GO.map outPt = pre.map outPt ++ outPt x :: post.map outPt := by
     rw [hGO, List.map_append, List.map_cons]
   obtain ⟨T1, hT1⟩ := squash_snoc_last (pre.map outPt) (outPt x)
